@@ -107,8 +107,8 @@ def gen_case(rng, params, idx):
 
 def _gen_method(rng, mid):
     kind = rng.choice(["walk_list", "map_list", "deep_list", "nest_list", "walk_tuple", "leaf", "leaf", "leaf", "wrap", "self_list",
-                       "ondemand", "acc_list"])
-    t = {"walk_list": "list", "acc_list": "list", "map_list": "list", "deep_list": "list", "nest_list": "list", "self_list": "list", "walk_tuple": "tuple",
+                       "ondemand", "acc_list", "both_list"])
+    t = {"walk_list": "list", "acc_list": "list", "both_list": "list", "map_list": "list", "deep_list": "list", "nest_list": "list", "self_list": "list", "walk_tuple": "tuple",
          "wrap": "dict", "ondemand": "list"}.get(kind)
     if t is None:
         t = rng.choice(["int", "str", "float", "bytes", "bool", "object", "object", "type[int]", "type[object]"])
@@ -134,7 +134,7 @@ def check_case(spec, res):
     # structure facts for the evidence
     def depth(n):
         return 0 if not n.parents else 1 + max(depth(p) for p in n.parents)
-    walkers = {"walk_list", "acc_list", "map_list", "deep_list", "nest_list", "walk_tuple", "wrap", "self_list", "ondemand"}
+    walkers = {"walk_list", "acc_list", "both_list", "map_list", "deep_list", "nest_list", "walk_tuple", "wrap", "self_list", "ondemand"}
     nontrivial = False
     for n in g.nodes:
         inh = {}
@@ -148,7 +148,7 @@ def check_case(spec, res):
             res.count("override_under_inherited_walker")
             if depth(n) >= 2:
                 nontrivial = True
-    res.count("selfname_walkers", sum(1 for m in g.mspecs.values() if m["kind"] == "self_list"))
+    res.count("selfname_walkers", sum(1 for m in g.mspecs.values() if m["kind"] in ("self_list", "both_list")))
     if nontrivial:
         shape = [[op[0]] + [x for x in op[1:] if not isinstance(x, dict)] +
                  [[x["t"], x["kind"]] for x in op[1:] if isinstance(x, dict)] for op in spec["ops"]]
